@@ -12,6 +12,7 @@ pub mod time;
 pub mod rand;
 pub mod net;
 pub mod trace;
+pub mod knobs;
 
 pub use crate::half_connection::HalfConnection;
 pub use crate::half_connection::Config as HalfConnectionConfig;
